@@ -22,7 +22,7 @@ MOSROMGR_WARNING = mexc.MosRoMgrWarning
 class Obs:
     __slots__ = ('before', 'after', 'exc', 'exc_type', 'exc_is_merge', 'exc_is_mos',
                  'exc_site', 'warns', 'other_warns', 'msg_before', 'msg_after',
-                 'cls_name', 'ro', 'msg', 'parse_exc')
+                 'cls_name', 'ro', 'msg', 'parse_exc', 'returned')
 
     def asdict(self):
         return {
@@ -58,6 +58,7 @@ def run_step(ro_xml, msg_xml, ro_obj=None, msg_obj=None, filt='always', via_merg
     o.warns = Counter()
     o.other_warns = []
     o.after = None
+    o.returned = None
     o.cls_name = None
     with warnings.catch_warnings(record=True) as rec:
         warnings.simplefilter(filt)
@@ -75,11 +76,16 @@ def run_step(ro_xml, msg_xml, ro_obj=None, msg_obj=None, filt='always', via_merg
         o.before = str(ro)
         o.msg_before = str(msg)
         try:
+            the_ro = ro
             if via_merge and not ro.completed:
                 # the other documented route: msg.merge(ro) (what `+` calls after its completed guard)
-                msg.merge(ro)
+                res = msg.merge(ro)
             else:
                 ro += msg
+                res = ro
+            # what the operation handed back: `ro += msg` rebinds the caller's name to it
+            o.returned = 'the running order' if res is the_ro else type(res).__name__
+            ro = the_ro
         except Exception as e:
             o.exc = e
             o.exc_type, o.exc_is_merge, o.exc_is_mos, o.exc_site = classify_exc(e)
